@@ -300,7 +300,7 @@ Qed.
 Lemma keep_debug_equiv le is64 fill i s : sec_equiv le is64 s (keep_debug_sec fill i s).
 Proof.
   unfold keep_debug_sec. destruct (kept s) eqn:Ek; [apply sec_equiv_refl|].
-  unfold kept in Ek. rewrite !orb_false_iff in Ek. destruct Ek as [[Ho Hd] Hr].
+  unfold kept in Ek. rewrite !orb_false_iff in Ek. destruct Ek as [[[Ho Hd] Hr] _].
   unfold sec_equiv. cbn [s_name]. split; [reflexivity|]. split.
   - rewrite Hr. reflexivity.
   - split; [rewrite Ho; discriminate|]. intros Hn. rewrite Hn, bytes_eqb_refl in Hd. discriminate.
